@@ -224,6 +224,32 @@ func runC09(c *Ctx) {
 			pairB = append(pairB, b)
 		}
 	}
+	// pairs within one feature family: per-document state that outlives a block (the table
+	// extension's cell lists, id tables) only shows when both halves use the same feature
+	{
+		var hotCtx, hotCont []string
+		for _, cx := range matrixContexts {
+			if !strings.ContainsAny(cx, "[\r\t") && (strings.Contains(cx, "|") || strings.Contains(cx, "\n: ") || strings.Contains(cx, "#") || strings.Contains(cx, "`") || strings.Contains(cx, "<div>")) {
+				hotCtx = append(hotCtx, cx)
+			}
+		}
+		for _, ct := range matrixContents {
+			if !strings.ContainsAny(ct, "[\r\t") && strings.ContainsAny(ct, "|`\\<&*~#:-") {
+				hotCont = append(hotCont, ct)
+			}
+		}
+		nFam := 6000
+		if !c.Quick() {
+			nFam = 120000
+		}
+		fill := func() []byte {
+			return []byte(strings.ReplaceAll(c.R.PickS(hotCtx), "%s", c.R.PickS(hotCont)))
+		}
+		for i := 0; i < nFam; i++ {
+			a, b := fill(), fill()
+			pairs = append(pairs, docItem{"same-family-pairs", append(append(append([]byte{}, a...), 0xff), b...)})
+		}
+	}
 	lawSweep(c, cfgs, pairs, "independence-law", func(d []byte) bool { return true }, func(m mdT, d []byte) (string, bool) {
 		i := bytes.IndexByte(d, 0xff)
 		a, b := d[:i], d[i+1:]
